@@ -351,7 +351,14 @@ impl CoreInner {
 		for entry in memtable_lock.iter().filter(|e| e.table_id != table_id && !Arc::ptr_eq(&e.memtable, &memtable)) {
 			oldest_needed = oldest_needed.min(entry.memtable.oldest_batch_wal());
 		}
-		let new_log_number = (wal_number + 1).min(oldest_needed).max(manifest.get_log_number());
+		// A memtable that recovery split off the front of an over-full segment
+		// does not cover that segment: the rest is in a later memtable.
+		let own_release = if memtable.wal_segment_continues() {
+			wal_number
+		} else {
+			wal_number + 1
+		};
+		let new_log_number = own_release.min(oldest_needed).max(manifest.get_log_number());
 		changeset.log_number = Some(new_log_number);
 		log::debug!(
 			"Changeset prepared: table_id={}, log_number={} (WAL #{:020} flushed)",
